@@ -546,8 +546,43 @@ def compare(case, ir, mo):
 STARTS = ["/", "/g", "/g/h", "/g/d"]
 
 
+def rand_chains(rng, start, flags, n, lo, hi):
+    """random long chains (lengths lo..hi), steps proposed like in enum_chains"""
+    out = []
+    for _ in range(n):
+        path, loc, lps = start, "l" in flags, ()
+        chain = []
+        for _ in range(rng.randrange(lo, hi + 1)):
+            st, nxt = rng.choice(steps_at(path, True))
+            chain.append(st)
+            if st[0] == "p":
+                if loc:
+                    if not lps:
+                        break
+                    nxt, lps = lps[0], lps[1:]
+            elif st[0] == "a":
+                if loc:
+                    break
+                lps = ()
+            elif st[0] == "r":
+                if "l" in st[1]:
+                    loc, lps = True, ()
+            elif st[2] != "":
+                lps = ((path,) + lps) if loc else ()
+            path = nxt
+        out.append([chain, KIND[path]])
+    return out
+
+
 def gen_cases(ctx):
     cases = []
+    for drv, n in (("h5", 60 if ctx.quick else 1500), ("ih5", 6 if ctx.quick else 150)):
+        for start in STARTS:
+            for flags in FLAGSETS:
+                ch = rand_chains(ctx.rng, start, flags, n, 4, 7)
+                per = 500 if drv == "h5" else 120
+                for i in range(0, len(ch), per):
+                    cases.append(dict(kind="chains", drv=drv, start=start, flags=flags, chains=ch[i:i + per], depth=7, full=True, group="random"))
     plan = []
     if ctx.quick:
         plan = [("h5", 3, False), ("h5", 2, True), ("ih5", 2, False)]
